@@ -99,7 +99,8 @@ func genC04(t *rapid.T) C04Case {
 	c.Trail = rapid.SampledFrom([]string{"", "", " ", "\n", "\r\n", " \t"}).Draw(t, "trail")
 	if rapid.IntRange(0, 3).Draw(t, "mutate") == 0 {
 		c.Mut = rapid.SampledFrom([]string{"nomsg", "noparen", "nodot", "nocolon", "noclose", "alpha-sec", "empty-sec",
-			"alpha-ms", "empty-ms", "alpha-seq", "bigseq", "emptyseq", "negseq", "badtype", "trunc"}).Draw(t, "mk")
+			"alpha-ms", "empty-ms", "alpha-seq", "bigseq", "emptyseq", "negseq", "badtype", "trunc",
+			"type-empty", "type-nospace", "type-blank", "type-gone", "msg-at-5"}).Draw(t, "mk")
 		c.Cut = rapid.IntRange(0, 1000).Draw(t, "cut")
 	}
 	if rapid.IntRange(0, 2).Draw(t, "hasprior") == 0 {
@@ -148,6 +149,16 @@ func (c C04Case) line() (line string, afterMsg string) {
 		after = "audit(" + s + "." + ms + ":):" + tail
 	case "negseq":
 		after = "audit(" + s + "." + ms + ":-" + n + "):" + tail
+	case "type-empty": // the type name and its blank are gone: msg= right after type=
+		return "type=msg=audit(" + s + "." + ms + ":" + n + "):" + tail, ""
+	case "type-nospace":
+		return "type=" + typ + "msg=audit(" + s + "." + ms + ":" + n + "):" + tail, ""
+	case "type-blank":
+		return "type= msg=audit(" + s + "." + ms + ":" + n + "):" + tail, ""
+	case "type-gone":
+		return "msg=audit(" + s + "." + ms + ":" + n + "):" + tail, ""
+	case "msg-at-5":
+		return "12345msg=audit(" + s + "." + ms + ":" + n + "):" + tail, ""
 	case "badtype":
 		return "type=NO_SUCH_TYPE msg=audit(" + s + "." + ms + ":" + n + "):" + tail, ""
 	case "trunc":
